@@ -99,6 +99,10 @@ class _PyExc(Exception):
         self.name = name
 
 
+# the token functions themselves and the chunk cursor are modelled, never inlined
+NOT_INLINED = {'_next_char', 'error', '_get_token', '_handle_string', '_handle_comment', '__call__', 'push_back', 'peek', 'expect', 'skipping_newlines', 'block'}
+
+
 class Machine:
     def __init__(self, mod: Module, folder: Folder, inputs: Sequence[Any], env: Dict[str, Any],
                  selfattrs: Dict[str, Any], lists: Optional[Dict[str, List[Any]]] = None,
@@ -125,6 +129,36 @@ class Machine:
         self.real_reads = 0
         self.eof_reads = 0
         self.calls: List[str] = []
+
+    # -- small helper methods of the same class are interpreted in place (same cursor, same attributes, own locals) ---------------------
+    def _helper(self, name: str) -> Optional[ast.AST]:
+        for cname in ('Tokenizer', 'BaseTokenizer'):
+            if self.mod.has_class(cname):
+                m = self.mod.methods(cname).get(name)
+                if m is not None:
+                    return m
+        return None
+
+    def _inline(self, fn: ast.AST, args: List[Any], call: ast.AST) -> Any:
+        self.inline_depth = getattr(self, 'inline_depth', 0) + 1
+        if self.inline_depth > 3:
+            raise AnalysisError(f'{self.mod.relpath}:{getattr(call, "lineno", 0)}: helper calls nested too deeply')
+        params = [a.arg for a in fn.args.args][1:]          # type: ignore[attr-defined]
+        if len(params) != len(args):
+            raise AnalysisError(f'{self.mod.relpath}:{getattr(call, "lineno", 0)}: helper call arity not modelled')
+        saved_env, saved_written = self.env, self.written
+        self.env, self.written = dict(zip(params, args)), set(params)
+        try:
+            try:
+                self.exec_block(fn.body)                  # type: ignore[attr-defined]
+                return None
+            except _Signal as sig:
+                if sig.kind == 'return':
+                    return sig.value
+                raise
+        finally:
+            self.env, self.written = saved_env, saved_written
+            self.inline_depth -= 1
 
     def choose(self, key: str, options: Sequence[Any]) -> Any:
         if key not in self.choices:
@@ -405,6 +439,10 @@ class Machine:
         if fn and fn.startswith('self.') and fn[5:] in self.methods:
             self.calls.append(fn[5:])
             return self.methods[fn[5:]](self, [self.eval(a) for a in n.args])
+        if fn and fn.startswith('self.') and fn.count('.') == 1 and fn[5:] not in NOT_INLINED:
+            helper = self._helper(fn[5:])
+            if helper is not None:
+                return self._inline(helper, [self.eval(a) for a in n.args], n)
         if isinstance(n.func, ast.Attribute):
             recvname = dotted(n.func.value)
             m = n.func.attr
